@@ -185,7 +185,7 @@ func accWhy(want, got string) string {
 
 func init() {
 	Specs["C01"] = &Spec{
-		Level: "proof",
+		Level: "other",
 		Explanation: "The emitter functions are turned into a finite automaton of emission events (path-sensitive over the operation, last-iteration, emptiness, byte-order, architecture and jump-form predicates); labels are " +
 			"resolved on it and the policy-level concatenation (prologue, x32 guard, group fragments in a loop, final return) is added with symbolic lengths, giving an object-level graph into which every concrete label-level " +
 			"program maps. On it: the group loop appends fragments in policy order; an unconditional entry is one equality jump on the table number whose true edge is that group's action return; walking only no-match edges " +
